@@ -18,6 +18,7 @@ SRC = "/repo/server/arbiter.go"
 MUTANTS = [
  # name, old, new  (old must occur exactly once in the repaired source)
  ("accept-equal-proposal-id", "if self.voter.proposalId >= request.ProposalId || self.voter.proposalHost != \"\" {", "if self.voter.proposalId > request.ProposalId || self.voter.proposalHost != \"\" {"),
+ ("accept-lower-proposal-id", "if self.voter.proposalId >= request.ProposalId || self.voter.proposalHost != \"\" {", "if self.voter.proposalHost != \"\" {"),
  ("accept-proposal-despite-pending-commit", "if self.voter.proposalId >= request.ProposalId || self.voter.proposalHost != \"\" {", "if self.voter.proposalId >= request.ProposalId {"),
  ("skip-newer-log-refusal-handler", "self.ownMember.arbiter == 0 && self.CompareAofId(self.GetCurrentAofID(), self.DecodeAofId(request.AofId)) > 0 {", "self.ownMember.arbiter == 0 && self.CompareAofId(self.GetCurrentAofID(), self.DecodeAofId(request.AofId)) > 1 {"),
  ("skip-newer-log-refusal-self", "self.manager.ownMember.arbiter == 0 && self.manager.CompareAofId(self.manager.GetCurrentAofID(), aofId) > 0 {", "self.manager.ownMember.arbiter == 0 && self.manager.CompareAofId(self.manager.GetCurrentAofID(), aofId) > 1 {"),
